@@ -30,7 +30,17 @@ static const char* kSuf[] = {"]", "}", " ] "};
 
 extern "C" int h_numtext(void) {
   long t = verif_param(0);
-  const char* s = kTmpl[t];
+  // 38, 39: generated: every fraction digit-run length 1..20 after 1 / 4 integer digits (the vector digit reader has one case per
+  // run length 1..16); first integer digit and last fraction digit symbolic
+  static char gen[64];
+  if (t >= 38) {
+    size_t k = verif_concrete(verif_range(1, 20, "fraclen")), g = 0;
+    gen[g++] = '#'; if (t == 39) { gen[g++] = '2'; gen[g++] = '3'; gen[g++] = '4'; }
+    gen[g++] = '.';
+    for (size_t i = 0; i + 1 < k; i++) gen[g++] = "12345678909876543210"[i];
+    gen[g++] = '#'; gen[g] = 0;
+  }
+  const char* s = t >= 38 ? gen : kTmpl[t];
   static char buf[1400]; size_t n = 0;
   for (; *s; s++) {
     if (*s == '#') buf[n++] = (char)('0' + verif_concrete(verif_range(0, 9, "digit")));
